@@ -137,7 +137,56 @@ def run(prog, rep, tier):
     o3 = b.origins(pc.args[2])
     o4 = b.origins(pc.args[3])
     has_tz_ok = all(x[0] == "call" and x[2].endswith("::next") and "2" in x[3] for x in o3) and bool(o3)
-    tz_ok = all(x[0] == "arg" and x[1] == 2 for x in o4) and bool(o4)
+    # the zone argument: the --tz-offset parameter, except for Unix-epoch rows (pattern contains
+    # %s), which denote an instant and are parsed with a zero offset
+    tz_ok = bool(o4)
+    epoch_choice = None
+    for x in o4:
+        if x[0] == "arg" and x[1] == 2:
+            continue
+        if x[0] == "call" and x[2].endswith("LocalKey::<T>::with"):
+            epoch_choice = x
+            continue
+        tz_ok = False
+    if epoch_choice is not None and tz_ok:
+        # the local holding the choice has two definitions; the zero-offset one must sit under
+        # `pattern.contains("%s")` and the parameter one under its negation
+        conts = [c for c in b.live_calls() if c.d.endswith("str::<impl str>::contains") or (c.d.endswith("::contains") and "str" in c.d)]
+        guard = None
+        for c in conts:
+            if "'%s'" in const_str_args(b, c) and c.target is not None:
+                t = b.term(c.target)
+                if t[0] == "switch" and op_local(t[1]) == c.dest[0]:
+                    arms = {int(v): tb for v, tb in t[2]}
+                    guard = (arms.get(0), t[3])
+        l4 = op_local(pc.args[3])
+        ok_guard = False
+        if guard is not None:
+            # find the variable with two defs feeding arg 4
+            for l, ds in b.defs.items():
+                if len(ds) == 2 and all(d[1] != "call" for d in ds):
+                    kinds = {}
+                    for d in ds:
+                        src = d[2][2] if d[2][0] in ("ref", "rawptr") else (d[2][1][1] if d[2][0] == "use" and d[2][1][0] != "k" else None)
+                        if src is None:
+                            continue
+                        oo = b.origins(["cp", src])
+                        if any(y[0] == "arg" and y[1] == 2 for y in oo):
+                            kinds["param"] = d[0]
+                        if any(y[0] == "call" and y[2].endswith("LocalKey::<T>::with") for y in oo):
+                            kinds["zero"] = d[0]
+                    if set(kinds) == {"param", "zero"}:
+                        if b.dominates(guard[1], kinds["zero"]) and b.dominates(guard[0], kinds["param"]):
+                            ok_guard = True
+        rep.examined(R142, b.path + "|epoch-zone", sample={"epoch_rows_use_zero_offset": True, "guarded_by_pattern_contains_%s": ok_guard})
+        if not ok_guard:
+            tz_ok = False
+    else:
+        rep.examined(R142, b.path + "|epoch-zone", sample={"epoch_rows_use_zero_offset": False})
+        if tz_ok:
+            rows_epoch = [r for r in rows if "%s" in r[0] and not r[2]]
+            if rows_epoch:
+                rep.violation(R142, b.path + "|epoch-zone", "process_dt: Unix-epoch rows %s carry no zone and are parsed in the --tz-offset zone; '+946684800' (documented as 2000-01-01 00:00 GMT) resolves to an instant shifted by the offset" % [r[0] for r in rows_epoch])
     rep.examined(R142, b.path + "|parse-args", sample={"has_tz_from_row_field_2": has_tz_ok, "tz_offset_from_parameter": tz_ok})
     if not has_tz_ok:
         rep.violation(R142, b.path + "|parse-args|has_tz", "process_dt: datetime_parse_from_str does not receive the row's own has_tz flag")
@@ -251,6 +300,35 @@ def run(prog, rep, tier):
             rep.violation(R143, cb.path + "|after-gt-before|exit", "cli_process_args: after > before does not lead to exit")
         if at[1] in ("ge", "le"):
             rep.violation(R143, cb.path + "|after-gt-before|strict", "cli_process_args: bounds are rejected with %s; equal bounds (A = B) must be accepted" % at[1])
+        # the ordering check must be on every path from every evaluation order to the return:
+        # find the Option-shape switch that leads to the comparison and require it to be passed
+        shape_sw = None
+        cur = bb
+        seen = set()
+        while cur is not None and cur not in seen:
+            seen.add(cur)
+            ps = [p for p in cb.pred[cur] if p in cb.live]
+            if len(ps) != 1:
+                break
+            cur = ps[0]
+            t0 = cb.term(cur)
+            if t0[0] == "switch":
+                sd = decide.switch_decisions(cb, cur)
+                if sd and any(d[0] in ("variant", "variant_not") for _, d in sd):
+                    shape_sw = cur
+        first_shape = shape_sw
+        # walk up to the outermost shape switch of the `match (after, before)`
+        gate = first_shape if first_shape is not None else bb
+        for c2 in pde:
+            rets = [r for r in cb.exits()]
+            skipped = [r for r in rets if r in cb.reachable(c2.target, {gate, bb}) ] if c2.target is not None else []
+            # only the *second* call of each order matters (the first is followed by the second)
+            later = [c3 for c3 in pde if c3 is not c2 and c3.bb in cb.reachable_after(c2.bb)]
+            if later:
+                continue
+            rep.examined(R143, "%s|order-check-reached|%s" % (cb.path, which(c2)), sample={"second_resolved": which(c2), "return_reachable_without_ordering_check": bool(skipped)})
+            if skipped:
+                rep.violation(R143, cb.path + "|after-gt-before|all-orders", "cli_process_args: when %s is resolved second, the function can return without comparing the two resolved bounds; an inverted window is accepted" % which(c2))
     # both-relative rejection and unresolved rejection exist
     pdx = prog.body("s4::process_dt_exit")
     pex = [c for c in pdx.live_calls() if c.d == "std::process::exit"]
@@ -270,6 +348,29 @@ def run(prog, rep, tier):
     if len(wd) != 2:
         rep.violation(R143, cb.path + "|both-relative", "cli_process_args: the two bounds are not both inspected for '@'-relative form")
     # all exits dominate... processing_loop is only reached from main after cli_process_args returns: exits are process::exit (diverging)
+
+    # ------------------------------------------------------------ R14.5 now-relative base
+    R145 = rep.rule("R14.5", "now-relative offsets start from the UTC instant converted to the --tz-offset zone")
+    sb = prog.body("s4::string_to_rel_offset_datetime")
+    tzcalls = [c for c in sb.live_calls() if (c.callee.get("trait") or "").endswith("chrono::TimeZone")]
+    adds = [c for c in sb.live_calls() if c.d.endswith("::checked_add_signed")]
+    wrong = []
+    for c in tzcalls:
+        name = c.o.split("::")[-1]
+        selfty = c.callee.get("self") or ""
+        if name in ("with_ymd_and_hms", "from_local_datetime", "ymd", "ymd_opt", "timestamp_opt") and selfty != "chrono::Utc" and name != "timestamp_opt":
+            wrong.append((name, selfty, c.line))
+    conv = [c for c in tzcalls if c.o.endswith("::from_utc_datetime")]
+    rep.examined(R145, sb.path + "|now-base", sample={"timezone_calls": [(c.o.split("::")[-1], c.callee.get("self")) for c in tzcalls], "instant_preserving_conversion": len(conv)})
+    if wrong:
+        rep.violation(R145, sb.path + "|now-base", "string_to_rel_offset_datetime: wall-clock fields are interpreted in %s by %s (line %d); 'now' read from the UTC clock must be converted with from_utc_datetime, otherwise every now-relative bound shifts by the --tz-offset" % (wrong[0][1], wrong[0][0], wrong[0][2]))
+    if not conv:
+        rep.violation(R145, sb.path + "|now-base|conv", "string_to_rel_offset_datetime: the UTC 'now' is not converted to the --tz-offset zone with from_utc_datetime")
+    elif adds:
+        # one of the additions starts from that conversion
+        ok = any(any(x[0] == "call" and x[2].endswith("::from_utc_datetime") for x in sb.origins(a.args[0], through_calls=("::deref",))) for a in adds)
+        if not ok:
+            rep.violation(R145, sb.path + "|now-base|add", "string_to_rel_offset_datetime: the duration is not added to the zone-converted 'now'")
 
     # ------------------------------------------------------------ R14.4
     tb = prog.body("s4::cli_process_tz_offset")
